@@ -156,6 +156,14 @@ def build(G, extra_vars=(), extra_terms=()):
     from pyformlang.cfg import CFG, Variable, Terminal, Production
     def obj(s): return Variable(s[1]) if is_var(s) else Terminal(s[1])
     prods = {Production(obj(h), [obj(s) for s in b]) for h, b in sorted(G[1], key=repr)}
+    # three ways of calling the constructor, chosen by the grammar (stable across hash seeds): objects everywhere; raw start symbol and nothing else;
+    # raw values for the variables, the terminals and the start symbol (the constructor converts them with to_variable / to_terminal)
+    import hashlib, json
+    mode = int(hashlib.md5(json.dumps(to_json(G), sort_keys=True, default=repr).encode()).hexdigest(), 16) % 3
+    if mode == 1 and not extra_vars and not extra_terms:
+        return CFG(start_symbol=G[0][1], productions=prods)
+    if mode == 2:
+        return CFG(variables={v[1] for v in variables(G)} | set(extra_vars), terminals={t[1] for t in terminals(G)} | set(extra_terms), start_symbol=G[0][1], productions=prods)
     return CFG(variables={Variable(v[1]) for v in variables(G)} | {Variable(x) for x in extra_vars},
                terminals={Terminal(t[1]) for t in terminals(G)} | {Terminal(x) for x in extra_terms},
                start_symbol=Variable(G[0][1]), productions=prods)
